@@ -92,6 +92,43 @@ class Tracer:
             return self._local
         return None
 
+    def _deliver(self, f, frame, **where):
+        s = self.site(frame)
+        st = self.state
+        self.nb.note("signal", signum=f["signum"], site=s,
+                     iteration=(st.iteration() if st else None),
+                     phase=(st.phase() if st else None),
+                     stack=self.stack(frame), **where)
+        self.delivered.append(f)
+        if self.on_signal is not None:
+            self.on_signal()
+        handler = signal.getsignal(int(f["signum"]))
+        if callable(handler) and handler is not signal.default_int_handler:
+            was = self.in_handler
+            self.in_handler = True
+            try:
+                handler(int(f["signum"]), frame)
+            finally:
+                self.in_handler = was
+        else:
+            # default disposition (nessai has not installed its handler yet, or Python's own SIGINT handler):
+            # the process dies like a kill
+            self.nb.note("signal_default", signum=f["signum"])
+            os._exit(128 + int(f["signum"]))
+
+    def deliver_now(self, f):
+        """A signal that arrives while a file-system event is in progress (fault kind signal_fs): the site is
+        the innermost nessai frame."""
+        import sys
+
+        if self.in_handler:
+            return
+        frame = sys._getframe(1)
+        fr = frame
+        while fr is not None and not os.path.realpath(fr.f_code.co_filename).startswith(self.pkg):
+            fr = fr.f_back
+        self._deliver(f, fr or frame, ev=self.count, fs_event=int(f["event"]))
+
     def site(self, frame):
         code = frame.f_code
         fn = code.co_filename
@@ -165,26 +202,7 @@ class Tracer:
         if self.next_sig is not None and c == self.next_sig:
             f = self.signals.pop(c)
             self.next_sig = min(self.signals) if self.signals else None
-            s = self.site(frame)
-            st = self.state
-            self.nb.note("signal", signum=f["signum"], ev=c, site=s,
-                         iteration=(st.iteration() if st else None),
-                         phase=(st.phase() if st else None),
-                         stack=self.stack(frame))
-            self.delivered.append(f)
-            if self.on_signal is not None:
-                self.on_signal()
-            handler = signal.getsignal(int(f["signum"]))
-            if callable(handler):
-                self.in_handler = True
-                try:
-                    handler(int(f["signum"]), frame)
-                finally:
-                    self.in_handler = False
-            else:
-                # default disposition: the process dies like a kill
-                self.nb.note("signal_default", signum=f["signum"])
-                os._exit(128 + int(f["signum"]))
+            self._deliver(f, frame, ev=c)
         if self.budget is not None:
             if c == self.budget // 2:
                 self.half_progress = self.progress(frame)
